@@ -36,8 +36,8 @@ impl Monitor for C04 {
     fn prop(&self) -> &'static str {
         "C04"
     }
-    fn begin(&mut self, _w: &World, s0: &Snap, _r: &mut Report) {
-        self.sh.begin(s0);
+    fn begin(&mut self, w: &World, s0: &Snap, _r: &mut Report) {
+        self.sh.begin(w, s0);
     }
     fn pre(&mut self, w: &World, op: &Op, pre: &Snap, _r: &mut Report) {
         self.view = None;
@@ -49,10 +49,7 @@ impl Monitor for C04 {
     }
     fn post(&mut self, w: &World, st: &Step, r: &mut Report) {
         self.sh.observe(w, st);
-        if self.sh.divergences > 0 {
-            r.count_n("stored-checkpoint-differs-from-observed-settlements", self.sh.divergences);
-            self.sh.divergences = 0;
-        }
+        self.sh.report(r);
         let Some((sender, msg, _)) = engine_msg(&st.op) else { return };
         let trader_op = matches!(
             msg,
@@ -175,8 +172,8 @@ impl Monitor for C05 {
     fn prop(&self) -> &'static str {
         "C05"
     }
-    fn begin(&mut self, _w: &World, s0: &Snap, _r: &mut Report) {
-        self.sh.begin(s0);
+    fn begin(&mut self, w: &World, s0: &Snap, _r: &mut Report) {
+        self.sh.begin(w, s0);
     }
     fn pre(&mut self, w: &World, op: &Op, pre: &Snap, _r: &mut Report) {
         self.view = None;
@@ -190,10 +187,7 @@ impl Monitor for C05 {
     }
     fn post(&mut self, w: &World, st: &Step, r: &mut Report) {
         self.sh.observe(w, st);
-        if self.sh.divergences > 0 {
-            r.count_n("stored-checkpoint-differs-from-observed-settlements", self.sh.divergences);
-            self.sh.divergences = 0;
-        }
+        self.sh.report(r);
         let Some((sender, msg, funds)) = engine_msg(&st.op) else { return };
         if !st.out.ok {
             return;
@@ -358,8 +352,8 @@ impl Monitor for C06 {
     fn prop(&self) -> &'static str {
         "C06"
     }
-    fn begin(&mut self, _w: &World, s0: &Snap, _r: &mut Report) {
-        self.sh.begin(s0);
+    fn begin(&mut self, w: &World, s0: &Snap, _r: &mut Report) {
+        self.sh.begin(w, s0);
     }
     fn pre(&mut self, w: &World, op: &Op, pre: &Snap, r: &mut Report) {
         self.view = None;
@@ -390,10 +384,7 @@ impl Monitor for C06 {
     }
     fn post(&mut self, w: &World, st: &Step, r: &mut Report) {
         self.sh.observe(w, st);
-        if self.sh.divergences > 0 {
-            r.count_n("stored-checkpoint-differs-from-observed-settlements", self.sh.divergences);
-            self.sh.divergences = 0;
-        }
+        self.sh.report(r);
         let Some((sender, eng::ExecuteMsg::Liquidate { vamm, trader, .. }, _)) = engine_msg(&st.op) else { return };
         let Some(vi) = w.vamm_idx(vamm) else { return };
         let Some(view) = self.view.clone() else { return };
